@@ -486,7 +486,7 @@ def c11(run):
 
 
 # ------------------------------------------------------------------------------------------- C10
-def _iterdsl_programs(run, path, name, limit=None, seed=1):
+def _iterdsl_programs(run, path, name, limit=None, seed=1, alt_sources=False):
     import progs
     import random
     import gen_iterdsl as gi
@@ -509,7 +509,7 @@ def _iterdsl_programs(run, path, name, limit=None, seed=1):
         random.Random(seed).shuffle(rest)
         lines = pri + rest[:max(0, limit - len(pri))]
     ps = progs.ProgSet(run, name)
-    for r in lines:
+    for k_line, r in enumerate(lines):
         body, exp, model = gi.case(r)
         guard = gi.std_guard_applies(r)
         rec = {"m": "IterDsl", "mac": "iter-dsl", "chain": [a["k"] + ("(%d)" % a["n"] if a["k"] in ("map", "skip", "take") else "") for a in r["chain"]],
@@ -525,6 +525,21 @@ def _iterdsl_programs(run, path, name, limit=None, seed=1):
             rec["got_konst"] = kk
             return kk == exp
         ps.add(body, "K:" + exp, rec, accept=accept)
+        # the same chain from the other source kinds (Sources of IterDsl.tla): chains of depth <= 1, every fifth deeper one
+        if alt_sources and "srcs" in r and (len(r["chain"]) <= 1 or (k_line % 5 == 0 and len(r["chain"]) == 2)):
+            for kind in ("array", "iter_copied", "range", "range_incl", "chars", "repeat_take"):
+                alt = gi.alt_source_case(r, kind)
+                if alt is None:
+                    continue
+                abody, aexp, amodel = alt
+                arec = dict(rec, source=kind, model="K:" + amodel, expected=aexp)
+
+                def aaccept(g, aexp=aexp, arec=arec):
+                    if not g.startswith("K:"):
+                        return False
+                    arec["got_konst"] = g[2:]
+                    return g[2:] == aexp
+                ps.add(abody, "K:" + aexp, arec, accept=aaccept)
     return ps
 
 
@@ -542,7 +557,7 @@ def c10(run):
     run.mc("MC_IterDsl", "IterDsl.d2.cfg", env={"OUT": out2}, heap="8g", timeout=3000)
     run.mc("MC_IterDsl", "IterDsl.d3.cfg", env={"OUT": out3}, heap="8g", timeout=3000)
     run.sample_file(out2, k=2)
-    _iterdsl_programs(run, out2, "C10-d2").execute()
+    _iterdsl_programs(run, out2, "C10-d2", alt_sources=True).execute()
     d3 = _iterdsl_programs(run, out3, "C10-d3", limit=1200 if q else None, seed=run.seed)
     d3.execute()
     run.assumptions += [BOUNDED, STD_GUARD + " (skipped on the two documented exceptions and on the known shape)",
